@@ -4,6 +4,7 @@ pub mod vec;
 pub mod reg;
 pub mod local;
 pub mod timer;
+pub mod fall;
 use crate::Area;
 pub fn lookup(name: &str) -> Option<Box<dyn Area>> {
     match name {
@@ -13,6 +14,7 @@ pub fn lookup(name: &str) -> Option<Box<dyn Area>> {
         "reg" => Some(Box::new(reg::RegArea)),
         "local" => Some(Box::new(local::LocalArea)),
         "timer" => Some(Box::new(timer::TimerArea)),
+        "fall" => Some(Box::new(fall::FallArea)),
         _ => None,
     }
 }
